@@ -102,9 +102,9 @@ Apply(o, s) ==
            IF Exists(s, g) THEN [s |-> s, ret |-> Ret("Ok", 0, "", "", {}, {<<m, s.msg[g][m]>> : m \in {x \in Msgs : s.msg[g][x] > 0}})]
            ELSE [s |-> s, ret |-> Err]
       [] o.k = "snap_create" ->
-           IF backend = "sql" /\ (~Exists(s, g) \/ s.snp[g][o.name] # NoSnap)
-           THEN [s |-> s, ret |-> Err]          \* FOREIGN KEY / PRIMARY KEY of group_state_snapshots
-           ELSE [s |-> [s EXCEPT !.snp[g][o.name] = Capture(s, g)], ret |-> Ok]
+           IF backend = "sql" /\ ~Exists(s, g)
+           THEN [s |-> s, ret |-> Err]          \* FOREIGN KEY of group_state_snapshots (drivers never do this)
+           ELSE [s |-> [s EXCEPT !.snp[g][o.name] = Capture(s, g)], ret |-> Ok]   \* an existing name is replaced
       [] o.k = "snap_rollback" ->
            IF s.snp[g][o.name] = NoSnap THEN [s |-> s, ret |-> Err]
            ELSE [s |-> [Restore(s, g, s.snp[g][o.name]) EXCEPT !.snp[g][o.name] = NoSnap], ret |-> Ok]
